@@ -100,6 +100,18 @@ def check(ctx):
     check_single_child(ctx)
     from .C10 import check_node_identity
     check_node_identity(ctx, ('type_assignment.election', 'taxonomy.'), floor=2)
+    # the records stay complete on their way out: no output writer edits
+    # the records it is handed (sa/rules/escape.py)
+    from ..rules.escape import check_param_records_not_edited
+    n_ro = 0
+    for fi_ in ctx.db.iter_functions():
+        if fi_.module.short == 'utils.output_utils':
+            n_ro += check_param_records_not_edited(
+                ctx, fi_, ('results_blob', 'output_blob', 'results',
+                           'blob'))
+    if n_ro < 4:
+        raise AnalysisError(f'only {n_ro} record parameters found among '
+                            'the output writers')
 
 
 def _node_of(cfg, rd, astn):
